@@ -146,6 +146,10 @@ def check(chk, repo):
     rep.fn("SCAN-result", fn, "the result lists the query nodes' labels in query order", okr,
            f"returns '{show(rets[0].value)[:120] if rets else '?'}'")
     run_kinds(rep, w)
+    from ..common import check_model_premises
+    from ..rules_premise import check_entry_unconditional
+    check_model_premises(rep, repo)
+    check_entry_unconditional(rep, w, per.guards, "SCAN-entry", "the per-sample scan", per.line)
     # premise anchored in fit: the order scanned is the order of removal, recorded once per removal
     from ..common import competitions_of
     from ..rules_ift import check_removal_bookkeeping
